@@ -43,7 +43,7 @@ ASSUMPTIONS = [
 PROBES = ['orbax_histories', 'half_deleted_old_step', 'leftover_tmp_after_crash', 'crash_after_commit', 'crash_before_commit', 'retry_rejected_committed', 'overwrite_removed_newer', 'keep_every_retained', 'chunked_leaf', 'async_latest_in_flight', 'sweep_points', 'policy_error_expected', 'torn_write', 'ioerror_runs']
 
 GOOD_PREFIXES = ['checkpoint_', 'ckpt', 'a_b_', 'run1_', 'model.x']
-BAD_PREFIXES = ['m-', 'v2.', 'run1']  # end in '-', '.', digit: the step number is mis-parsed (finding prefix-corrupts-step-order)
+BAD_PREFIXES = ['m-', 'v2.', 'run1']  # end in '-', '.', digit: were glued to the step before fix 943634b
 DIRS = ['/sim/run-3/x7', '/sim/ckpts', '/sim/a.b/e-1']
 ORBAX_TMP = '.orbax-checkpoint-tmp'
 ORBAX_SHARE = 0.04  # of histories; an Orbax history costs ~15x a legacy one, so roughly a third of the wall time
@@ -122,7 +122,7 @@ def generate(rs, tier):
   style = g.choice(['int', 'int', 'neg', 'float', 'exp', 'mixed'])
   pool = _pool(g, style)
   asyn = g.random() < 0.25
-  bad_prefix = g.random() < 0.06
+  bad_prefix = g.random() < 0.15
   knobs = dict(
     backend='legacy',
     io_mode=g.choice(['TF', 'DEFAULT']),
@@ -138,8 +138,6 @@ def generate(rs, tier):
   if g.random() < float(__import__('os').environ.get('VERIF_ORBAX_SHARE', ORBAX_SHARE)):  # env override: diagnostics only
     knobs.update(backend='orbax', io_mode='DEFAULT', asyn=False, chunk=2**30)
     asyn = False
-    if bad_prefix:
-      knobs['prefix'] = g.choice(GOOD_PREFIXES)
   every_hist = g.choice([None, None, 2, 3, 5])
   if every_hist:
     knobs['pool'] = pool = [p for p in pool if p != 0] or [1, 2, 3]
